@@ -319,7 +319,8 @@ Proof.
   { destruct (length (p_hops p) <=? p_ch p + 1)%nat; destruct en;
       try (intros H; inversion H; exact I).
     - intros H; inversion H; subst; destruct err; exact I.
-    - destruct (nth_error (p_hops p) (S (p_ch p))); [|intros H; inversion H; exact I].
+    - destruct (63 <? S (p_ch p))%nat; [intros H; inversion H; exact I|].
+      destruct (nth_error (p_hops p) (S (p_ch p))); [|intros H; inversion H; exact I].
       destruct (nth_error (p_infos p) (S (p_ci p))); [|intros H; inversion H; exact I].
       cbn [or_else]. intros H; inversion H; subst; destruct err; exact I.
     - intros H; inversion H; subst; destruct err; exact I. }
@@ -348,6 +349,7 @@ Proof.
   - intros H; inversion H; exact I.
   - (* segment change *)
     apply Nat.leb_gt in Ef.
+    destruct (63 <? S (p_ch p))%nat; [intros H; inversion H; exact I|].
     destruct (nth_error (p_hops p) (S (p_ch p))) as [nh|] eqn:Enh; [|intros H; inversion H; exact I].
     destruct (nth_error (p_infos p) (S (p_ci p))) as [ninf|] eqn:Eni; [|intros H; inversion H; exact I].
     cbn [or_else].
@@ -397,6 +399,7 @@ Proof.
       by (rewrite nth_error_upd_neq; [exact Enh|lia]).
     rewrite Enh1, Eni1.
     destruct (length (p_hops p) <=? S (p_ch p) + 1)%nat eqn:Ef2; [intros H; inversion H; exact I|].
+    destruct (63 <? S (S (p_ch p)))%nat; [intros H; inversion H; exact I|].
     destruct en2; [intros H; inversion H; exact I|].
     destruct (sdk_validate_hop mac false false (hop_egress nh ninf) now K nh ninf) as [err|] eqn:Ev3;
       [intros H; inversion H; subst; destruct err; exact I|].
@@ -430,6 +433,7 @@ Proof.
     rewrite Es, Nat.eqb_refl. cbn [negb]. rewrite upd_length.
     rewrite (upd_same _ _ _ Eh). rewrite Eh, Ei1.
     assert ((length (p_hops p) <=? p_ch p + 1)%nat = false) as -> by (apply Nat.leb_gt; lia).
+    destruct (63 <? S (p_ch p))%nat; [intros H; inversion H; exact I|].
     destruct (sdk_validate_hop mac false false (hop_egress h inf) now K h inf1) as [err|] eqn:Ev3;
       [intros H; inversion H; subst; destruct err; exact I|].
     rewrite Cinf. fold (eg_alert h inf).
@@ -495,6 +499,7 @@ Proof.
   destruct (nth_error (p_hops p1) (p_ch p1)) as [h|] eqn:Eh; [|discriminate].
   rewrite Eci in Ee.
   destruct (length (p_hops p1) <=? p_ch p1 + 1)%nat; [discriminate|].
+  destruct (63 <? S (p_ch p1))%nat; [discriminate|].
   destruct en; [discriminate|].
   injection Ee as Hp Hal Heg Hv.
   destruct (validate_egress_none mac _ _ _ _ _ _ Hv) as (A & B & C).
